@@ -53,11 +53,11 @@ Section CoversMain.
   Proof.
     destruct s as [b|ty fmt enum cst nv sv ik items ai mni mxi uq props req ap mnp mxp allo anyo oneo no ref dflt title];
       [intros _ _; left; exact I|].
-    intros Hf Hio. apply frag_obj_inv in Hf. destruct Hf as (nl & k & Hcl & _ & _ & _ & Hone & _).
-    unfold is_one in Hio. cbn [classify_s] in Hio. rewrite Hcl in Hio. cbn [no_one].
+    intros Hf Hio. apply frag_obj_inv in Hf. destruct Hf as (nl & k & Hcl & _ & _ & Hone & _).
+    unfold is_one in Hio. cbn [classify_s] in Hio. rewrite Hcl in Hio. cbn [no_one]. unfold union_spec in Hone.
     destruct k; try (left; exact Hone); try discriminate Hio.
-    right. intros t Hs. cbn [shape] in Hs. rewrite Hcl in Hs. destruct Hone as [-> _]. cbn [kshape] in Hs.
-    destruct oneo as [[|a [|b [|]]]|]; try contradiction. destruct Hs as (i & Hi & _). exists i. exact Hi.
+    right. intros t Hs. cbn [shape] in Hs. rewrite Hcl in Hs. destruct Hone as [-> Hu]. cbn [kshape] in Hs.
+    destruct (union_of oneo anyo) as [[|a [|b [|]]]|]; try contradiction. destruct Hs as (i & Hi & _). exists i. exact Hi.
   Qed.
 
   Lemma struct_case_gen skip ty (props : list (ustring * schema)) req ap nn ps deny :
@@ -182,10 +182,10 @@ Section CoversMain.
 
   Lemma conv_C2 : forall s, Cv2 s.
   Proof.
-    apply schema_ind_p.
+    apply schema_ind_u.
     - intros b. split; [intros Hf; discriminate Hf|intros Hf; discriminate Hf].
-    - intros ty fmt enum cst nv sv ik items ai mni mxi uq props req ap mnp mxp allo anyo oneo no ref dflt title
-             IHitems2 IHprops2 IHap2 IHone _.
+    - intros ty fmt enum cst nv sv ik items ai mni mxi uq props req ap mnp mxp allo oneo no ref dflt title
+             IHitems2 IHprops2 IHap2 IHone.
       assert (IHitems : Forall Cv items) by (eapply Forall_impl; [|exact IHitems2]; intros a Ha; exact (proj1 Ha)).
       assert (IHprops : Forall (fun kv => Cv (snd kv)) props)
         by (eapply Forall_impl; [|exact IHprops2]; intros a Ha; exact (proj1 Ha)).
@@ -194,10 +194,10 @@ Section CoversMain.
       split.
       { (* ---- against a type id *)
       intros Hf t Hs ft nn.
-      pose proof Hf as Hfi. apply frag_obj_inv in Hfi. destruct Hfi as (nl & k & Hcl & -> & -> & -> & Hone & ->).
+      pose proof Hf as Hfi. apply frag_obj_inv0 in Hfi. destruct Hfi as (nl & k & Hcl & -> & -> & Hone & ->).
       pose proof Hcl as Hcases. apply classify_cases in Hcases.
       cbn [frag] in Hf. rewrite Hcl in Hf. change (frag_kind cls D k items props req ap oneo = true) in Hf.
-      cbn [shape] in Hs. rewrite Hcl in Hs. cbn [Gs].
+      cbn [shape union_of] in Hs. rewrite Hcl in Hs. cbn [Gs].
       destruct Hcases as [(l & tt & -> & -> & Hsp & Hkt)
                          |(-> & -> & -> & -> & -> & -> & -> & -> & -> & -> & -> & -> & -> & Hrk)].
       + pose proof Hkt as Hinv. apply kind_of_type_inv in Hinv.
@@ -302,8 +302,8 @@ Section CoversMain.
             destruct (classify aty afmt aenum acst anv asv aik aitems aai amni amxi auq aprops areq aap amnp amxp aallo aanyo aoneo ano aref adflt atitle)
               as [[[|] k']|]; [| |contradiction].
             - destruct Hsa as (j & Hj & _). eexists. exact Hj.
-            - destruct k'; cbn [kshape] in Hsa; try (destruct aoneo as [[|a1 [|b1 [|]]]|]; try contradiction);
-                try (destruct aoneo as [bs1|]; [|contradiction]);
+            - destruct k'; cbn [kshape] in Hsa; try (destruct (union_of aoneo aanyo) as [[|a1 [|b1 [|]]]|]; try contradiction);
+                try (destruct (union_of aoneo aanyo) as [bs1|]; [|contradiction]);
                 repeat match goal with
                        | H : exists _, _ |- _ => destruct H as (? & H)
                        | H : _ /\ _ |- _ => destruct H as [H ?]
@@ -420,7 +420,7 @@ Section CoversMain.
       { (* ---- a struct / tuple payload against the data of a variant *)
       intros Hf. split.
       + intros ps deny Hcl Hss. cbn [classify_s] in Hcl. cbn [sch_props sch_required] in Hss.
-        pose proof Hf as Hfi. apply frag_obj_inv in Hfi. destruct Hfi as (nl & k & Hcl' & -> & -> & -> & Hone & ->).
+        pose proof Hf as Hfi. apply frag_obj_inv0 in Hfi. destruct Hfi as (nl & k & Hcl' & -> & -> & Hone & ->).
         rewrite Hcl in Hcl'. injection Hcl' as <- <-. cbn in Hone. subst oneo.
         cbn [frag] in Hf. rewrite Hcl in Hf. change (frag_kind cls D (KStruct deny) items props req ap None = true) in Hf.
         pose proof Hcl as Hcases. apply classify_cases in Hcases.
@@ -434,7 +434,7 @@ Section CoversMain.
         apply struct_case_sh; try assumption.
         eapply ty_is_split; [exact Hsp|discriminate|discriminate|reflexivity].
       + intros ts Hcl Hall. cbn [classify_s] in Hcl. cbn [sch_items snd] in Hall.
-        pose proof Hf as Hfi. apply frag_obj_inv in Hfi. destruct Hfi as (nl & k & Hcl' & -> & -> & -> & Hone & ->).
+        pose proof Hf as Hfi. apply frag_obj_inv0 in Hfi. destruct Hfi as (nl & k & Hcl' & -> & -> & Hone & ->).
         rewrite Hcl in Hcl'. injection Hcl' as <- <-. cbn in Hone. subst oneo.
         cbn [frag] in Hf. rewrite Hcl in Hf. change (frag_kind cls D KTuple items props req ap None = true) in Hf.
         pose proof Hcl as Hcases. apply classify_cases in Hcases.
@@ -447,6 +447,20 @@ Section CoversMain.
         rewrite (ty_is_split l false TArray false [TArray] Hsp) by (try discriminate; reflexivity). cbn [andb].
         cbn [frag_kind] in Hf.
         destruct (cov_list_sh items ts IHitems Hf Hall) as [Hl Hc]. rewrite Hl, N.eqb_refl, Hc. reflexivity. }
+    - intros ty fmt enum cst nv sv ik items ai mni mxi uq props req ap mnp mxp allo bs no ref dflt title [HO1 HO2]. split.
+      + intros Hf t Hs ft nn.
+        destruct (frag_classify cls D _ _ _ _ _ _ _ _ _ _ _ _ _ _ _ _ _ _ _ _ _ _ _ _ Hf) as (x & Hcl).
+        rewrite (any_frag cls D _ _ _ _ _ _ _ _ _ _ _ _ _ _ _ _ _ _ _ _ _ _ _ x Hcl) in Hf.
+        cbn [shape] in Hs. rewrite Hcl in Hs.
+        assert (Hs' : shape cls D T (SObj ty fmt enum cst nv sv ik items ai mni mxi uq props req ap mnp mxp allo None (Some bs) no ref dflt title) t).
+        { cbn [shape]. rewrite (any_classify _ _ _ _ _ _ _ _ _ _ _ _ _ _ _ _ _ _ _ _ _ _ _ x Hcl). exact Hs. }
+        pose proof (HO1 Hf t Hs' ft nn) as HG. cbn [Gs] in *. rewrite go_swap. exact HG.
+      + intros Hf. destruct (frag_classify cls D _ _ _ _ _ _ _ _ _ _ _ _ _ _ _ _ _ _ _ _ _ _ _ _ Hf) as ([nl k] & Hcl).
+        pose proof (classify_union _ _ _ _ _ _ _ _ _ _ _ _ _ _ _ _ _ _ _ _ _ _ _ nl k (any_classify _ _ _ _ _ _ _ _ _ _ _ _ _ _ _ _ _ _ _ _ _ _ _ _ Hcl)) as Hk.
+        split.
+        * intros ps deny Hc' _. cbn [classify_s] in Hc'. rewrite Hcl in Hc'. injection Hc' as _ ->. contradiction.
+        * intros ts Hc' _. cbn [classify_s] in Hc'. rewrite Hcl in Hc'. injection Hc' as _ ->. contradiction.
+    - intros ty fmt enum cst nv sv ik items ai mni mxi uq props req ap mnp mxp allo abs obs no ref dflt title. split; intros Hf; rewrite both_frag in Hf; discriminate Hf.
   Qed.
 
   Lemma conv_C : forall s, Cv s.
